@@ -549,7 +549,9 @@ func (f *FuncCFG) Resolve(e ast.Expr, pt Point) (ast.Expr, Point) { return f.res
 
 // ResolveToCall is Resolve that stops at the first call it reaches (it does not look into the
 // return value of an expanded helper): "which call produced this value".
-func (f *FuncCFG) ResolveToCall(e ast.Expr, pt Point) (ast.Expr, Point) { return f.resolve(e, pt, false) }
+func (f *FuncCFG) ResolveToCall(e ast.Expr, pt Point) (ast.Expr, Point) {
+	return f.resolve(e, pt, false)
+}
 
 func (f *FuncCFG) resolve(e ast.Expr, pt Point, intoHelpers bool) (ast.Expr, Point) {
 	for steps := 0; steps < 12; steps++ {
